@@ -1,6 +1,8 @@
 import ITree.Lemmas.ArenaOps
 import ITree.Lemmas.ArenaDeleteTop
 import ITree.Lemmas.ArenaExpire
+import ITree.Lemmas.ArenaClear
+import ITree.Props.Common
 import ITree.Lemmas.MapWF
 /-!
 # Arena level (pointer code with parent links) — theorems shared by C02, C08, C09, C10, C11, C17
@@ -89,6 +91,46 @@ theorem arena_kInsert_refines {a : Arena V} {st st' : St V} (h : RepSt a st) (hw
     (hm : st.kInsert e time = some (st', tr)) :
     ∃ a', a.kInsert e time = some a' ∧ RepSt a' st' :=
   kInsert_rep h hw hB e time hm
+
+/-- **clear** -/
+theorem arena_clear_refines {a : Arena V} {st : St V} (h : RepSt a st) (hw : WF st) (hsize : a.nodes.size ≤ EMPTY) :
+    ∃ a', a.clear = some a' ∧ RepSt a' st.clear ∧ a'.nodes = a.nodes :=
+  let ⟨a', h1, h2, h3, _⟩ := clear_rep h hw.slots hsize
+  ⟨a', h1, h2, h3⟩
+
+/-- one public mutating operation of the map / set tree, run by the pointer code -/
+def Arena.step (a : Arena V) : MapOp V → Option (Arena V)
+  | .insert e => a.insert e
+  | .delete key => a.delete key
+  | .deleteByIndex slot => a.deleteIndex slot
+  | .setValue slot v => (a.node slot).bind fun n => a.setEnt slot (n.ent.setVal v)
+  | .clear => a.clear
+
+/-- **every operation of the map / set tree**: on a well-formed state the pointer code completes without
+indexing outside its arena, and the arena it leaves is exactly the zipper model's next state (links, parent
+fields, colours, entities, free list). `hroom`: the arena with one more growth step still fits `u32` indices. -/
+theorem arena_step_refines {a : Arena V} {st st' : St V} (op : MapOp V) (h : RepSt a st) (hw : WF st)
+    (hroom : a.nodes.size + a.cap ≤ EMPTY) (hm : st.step op = some st') :
+    ∃ a', Arena.step a op = some a' ∧ RepSt a' st' := by
+  have hsize : a.nodes.size ≤ EMPTY := by omega
+  cases op with
+  | insert e =>
+    simp only [St.step, Option.some.injEq] at hm; subst hm
+    obtain ⟨a', h1, h2, _⟩ := arena_insert_refines e h hw hroom
+    exact ⟨a', h1, h2⟩
+  | delete key =>
+    obtain ⟨a', h1, h2, _⟩ := arena_delete_refines key h hw hsize hm
+    exact ⟨a', h1, h2⟩
+  | deleteByIndex slot =>
+    obtain ⟨a', h1, h2, _⟩ := arena_deleteByIndex_refines slot h hw hsize hm
+    exact ⟨a', h1, h2⟩
+  | setValue slot v =>
+    obtain ⟨n, a', h1, h2, h3⟩ := arena_write_refines h hw slot v hm
+    exact ⟨a', by simp [Arena.step, h1, h2], h3⟩
+  | clear =>
+    simp only [St.step, Option.some.injEq] at hm; subst hm
+    obtain ⟨a', h1, h2, _⟩ := arena_clear_refines h hw hsize
+    exact ⟨a', h1, h2⟩
 
 /-- non-vacuity: three insertions into a new arena, computed by the pointer code, are represented -/
 example : ∃ a', ((Arena.new 8 (⟨0, 0, 0⟩ : Ent Nat)).insert ⟨5, 0, 50⟩) = some a' ∧
